@@ -4,7 +4,16 @@ EXTENDS Relay
 Cli1 == << <<1>>, <<2>>, <<3, ACT, 4>>, <<5>>, <<6, END>> >>
 \* server: plain, trigger chunk with bytes around it, plain racing the handshake, CFG with rest, data
 Srv1 == << <<11>>, <<12, TRIG, 13>>, <<14, CFG, 15>>, <<16>> >>
+CliNoEnd == << <<1>>, <<2>>, <<3, ACT, 4>>, <<5>>, <<6>> >>
 SrvNoCfg == << <<11>>, <<12, TRIG, 13>>, <<16>> >>
 Cli2 == << <<1>>, <<ACT>>, <<4>>, <<5, END>> >>
 Srv2 == << <<TRIG>>, <<13>>, <<CFG>>, <<15>>, <<16>> >>
+\* a handshake whose ACT / CFG cannot be decoded: the relay tells both sides and flushes
+CliBadAct == << <<1>>, <<2, BADACT, 3>>, <<4>> >>
+SrvForBad == << <<11>>, <<12, TRIG, 13>>, <<16>> >>
+CliOK == << <<1>>, <<3, ACT, 4>>, <<5>> >>
+SrvBadCfg == << <<11>>, <<12, TRIG, 13>>, <<14, BADCFG, 15>>, <<16>> >>
+\* two transfers through the same relay
+Cli2R == << <<1>>, <<ACT, 2>>, <<3, END>>, <<4>>, <<5, -11>>, <<6, -14>> >>
+Srv2R == << <<TRIG>>, <<CFG, 12>>, <<13>>, <<-13, 14>>, <<-12>>, <<15>> >>
 =============================================================================
